@@ -93,7 +93,7 @@ package mpb
 //@   ensures  S2: old(s.aborted) ==> s.aborted && !s.completed()
 
 //@ func (*Bar).SetRefill$1
-//@   props    C09 C11 C10
+//@   props    C09 C11 C10 C08
 //@   requires s != nil
 //@   modifies s.refill
 //@   ensures  capped: s.refill == min(amount, s.current)
@@ -495,7 +495,7 @@ package mpb
 //@   requires fn != nil
 
 //@ func (barStyle).Build
-//@   props    C07 C02
+//@   props    C07 C02 C04
 //@   loop 1   modifies elems(bf.tip.frames)
 //@   loop 1   invariant bf != nil && fresh(bf) && fresh(bf.tip.frames) && len(bf.tip.frames) == len(s.tipFrames) && s.tipFrames == old(s.tipFrames)
 //@   loop 1   invariant forall(j, 0, rangeindex + 1, bf.tip.frames[j].width == dw(bf.tip.frames[j].bytes))
@@ -876,14 +876,40 @@ package mpb
 // Options: what a container option / bar option may write (checked for every built-in option
 // by the static obligation functype-frame; assumed for user-written options).
 //@ functype ContainerOption
-//@   props    C02 C05 C04
+//@   props    C02 C05 C04 C15
 //@   params   s
+//@   requires s != nil && s.output != nil && s.debugOut != nil
+//@   requires s.delayRC != s.iterDrop && !isext(s.iterDrop)
 //@   ensures  s.delayRC != s.iterDrop
+//@   ensures  writers: s.output != nil && s.debugOut != nil // both writers are used without a nil check later (render errors are reported to debugOut)
 //@   modifies pState.uwg, pState.reqWidth, pState.hmQueueLen, pState.refreshRate, pState.manualRC, pState.delayRC, pState.shutdownNotifier, pState.output, pState.debugOut, pState.autoRefresh, pState.popCompleted
 
+// the two writer options replace a nil writer by io.Discard before making the closure
+//@ func WithOutput$1
+//@   props    C02 C15 C04
+//@   requires w != nil
+//@ func WithDebugOutput$1
+//@   props    C02 C15
+//@   requires w != nil
+//@ func WithOutput
+//@   props    C02 C15 C04
+//@   assumes  discard: global("io.Discard") != nil
+//@ func WithDebugOutput
+//@   props    C02 C15
+//@   assumes  discard: global("io.Discard") != nil
+// the delay channel is the caller's
+//@ func WithRenderDelay$1
+//@   props    C02 C04
+//@   requires isext(ch)
+//@ func WithRenderDelay
+//@   props    C02 C04
+//@   assumes  callers: isext(ch)
+
 //@ func NewWithContext
-//@   props    C02 C05 C04
+//@   props    C02 C05 C04 C15
+//@   assumes  stdout: global("os.Stdout") != nil && global("io.Discard") != nil
 //@   loop 1   invariant s != nil && s.iterDrop != nil && s.renderReq != nil && s.queueBars != nil && s.ctx != nil && fresh(s) && s.delayRC != s.iterDrop && !isext(s.iterDrop)
+//@   loop 1   invariant s.output != nil && s.debugOut != nil
 
 // ---------------------------------------------------------------------------------------
 // creating bars (C09 initial state, C05/C17 accounting, C06 default priority)
@@ -902,7 +928,7 @@ package mpb
 //@   ensures  result != nil
 
 //@ func (pState).makeBarState
-//@   props    C09 C06 C19 C02 C17 C05 C07
+//@   props    C09 C06 C19 C02 C17 C05 C07 C20
 //@   requires filler != nil
 //@   loop 1   invariant bs != nil && fresh(bs) && bs.total == total && bs.current == 0 && bs.refill == 0 && bs.triggerComplete == (total > 0) && !bs.aborted && bs.shutdown == 0
 //@   loop 1   invariant bs.renderReq == s.renderReq && bs.autoRefresh == s.autoRefresh && bs.filler != nil && bs.extender != nil
@@ -913,6 +939,9 @@ package mpb
 //@   loop 2   invariant forall(i, 0, len(bs.ewmaDecorators), bs.ewmaDecorators[i] != nil)
 //@   loop 3   invariant bs != nil && fresh(bs) && bs.total == total && bs.current == 0 && bs.refill == 0 && bs.triggerComplete == (total > 0) && !bs.aborted && bs.shutdown == 0
 //@   loop 3   invariant forall(i, 0, len(bs.ewmaDecorators), bs.ewmaDecorators[i] != nil)
+//@   loop 3   ensures collected: called("unwrap") == iter(called("unwrap")) + 1 && calledWith("unwrap", 0) == d#1 // the innermost decorator decides, however deeply it is wrapped
+//@              && len(bs.ewmaDecorators) == iter(len(bs.ewmaDecorators)) + ite(hasType(returned("unwrap", 0), "decor.EwmaDecorator"), 1, 0)
+//@              && (hasType(returned("unwrap", 0), "decor.EwmaDecorator") ==> bs.ewmaDecorators[len(bs.ewmaDecorators) - 1] == returned("unwrap", 0))
 //@   ensures  result != nil && fresh(result)
 //@   ensures  initial: result.total == total && result.current == 0 && result.refill == 0 && result.triggerComplete == (total > 0) && !result.aborted && result.shutdown == 0
 //@   ensures  ewma: forall(i, 0, len(result.ewmaDecorators), result.ewmaDecorators[i] != nil)
@@ -1135,7 +1164,7 @@ package mpb
 
 //@ func (*Progress).serve
 //@   props    C03 C04 C13 C14 C15 C05 C02
-//@   requires p != nil && s != nil && cw != nil && wkey(cw.out) != cw.Buffer && p.cancel != nil
+//@   requires p != nil && s != nil && cw != nil && wkey(cw.out) != cw.Buffer && p.cancel != nil && s.debugOut != nil
 //@   requires s.iterDrop != p.done && s.iterDrop != s.delayRC
 //@   assumes  owner: !closed(s.hm) && !closed(s.iterDrop)
 //@   requires parked: forall(k, has(s.queueBars, k) ==> s.queueBars[k] != nil)
@@ -1146,7 +1175,7 @@ package mpb
 //@   loop 1   invariant forall(k, has(s.queueBars, k) ==> s.queueBars[k] != nil)
 //@   loop 1   invariant delay: (s.delayRC != nil ==> cw != nil && cw == in(cw) && w != in(cw) && w.out == global("io.Discard")) && (s.delayRC == nil ==> w == in(cw))
 //@   loop 1   invariant called("(heapManager).end") == old(called("(heapManager).end")) && called("fmt.Fprintln") == old(called("fmt.Fprintln"))
-//@   loop 1   invariant s.debugOut == old(s.debugOut) && s.shutdownNotifier == old(s.shutdownNotifier) && s.autoRefresh == old(s.autoRefresh)
+//@   loop 1   invariant s.debugOut == old(s.debugOut) && s.debugOut != nil && s.shutdownNotifier == old(s.shutdownNotifier) && s.autoRefresh == old(s.autoRefresh)
 //@   loop 1   ensures intercept: called("(*Progress).serve.fn") == iter(called("(*Progress).serve.fn")) + 1 ==> calledWith("(*Progress).serve.fn", 0) == iter(w)
 //@   loop 1   ensures onerender: called("(*pState).render") <= iter(called("(*pState).render")) + 1
 //@   loop 1   ensures cancelonce: iter(err) == nil && err != nil ==> called("Progress.cancel") == iter(called("Progress.cancel")) + 1 && spawned("(*Progress).serve$1") == iter(spawned("(*Progress).serve$1")) + 1
@@ -1155,7 +1184,7 @@ package mpb
 //@   loop 2   invariant forall(k, has(s.queueBars, k) ==> s.queueBars[k] != nil)
 //@   loop 2   invariant called("(heapManager).end") == old(called("(heapManager).end")) && called("fmt.Fprintln") == old(called("fmt.Fprintln"))
 //@   loop 2   invariant called("(*pState).render") == entry(2, called("(*pState).render")) + i
-//@   loop 2   invariant s.debugOut == old(s.debugOut) && s.shutdownNotifier == old(s.shutdownNotifier) && s == in(s)
+//@   loop 2   invariant s.debugOut == old(s.debugOut) && s.debugOut != nil && s.shutdownNotifier == old(s.shutdownNotifier) && s == in(s)
 //@   ensures  ended: called("(heapManager).end") == old(called("(heapManager).end")) + 1 && calledWith("(heapManager).end", 1) == old(s.shutdownNotifier)
 //@   ensures  reported: called("fmt.Fprintln") <= old(called("fmt.Fprintln")) + 1 && (err#1 != nil ==> called("fmt.Fprintln") == old(called("fmt.Fprintln")) + 1 && calledWith("fmt.Fprintln", 0) == old(s.debugOut))
 //@   ensures  noframeaftererror: err#1 != nil ==> called("(*pState).render") == at(1, called("(*pState).render"))
@@ -1428,8 +1457,12 @@ package mpb
 
 // extender closures (C15): on a filler error the buffer is reset and the rows are returned
 // with the error; otherwise the buffer ends empty
+// (C04) every row the extender adds is one complete, non-empty line of what the filler wrote:
+// an empty extra row would be counted by the frame and erased from above on the next one
 //@ func makeExtenderFunc$1
-//@   props    C15 C02
+//@   props    C15 C02 C04 C13
+//@   loop 1   invariant len(rows) >= len(in(rows)) && forall(k, len(in(rows)), len(rows), rows[k] != buf && len(content(rows[k])) >= 1)
+//@   ensures  wholelines: forall(k, len(in(rows)), len(result0), len(content(result0[k])) >= 1)
 //@   requires filler != nil && buf != nil && stat.AvailableWidth >= 0 && stat.AvailableWidth <= 1<<31 && stat.RequestedWidth <= 1<<31
 //@   ensures  onerror: result1 != nil ==> dw(written(buf)) == 0 && result0 == rows
 //@   ensures  drained: result1 == nil ==> dw(written(buf)) == 0
